@@ -102,8 +102,9 @@ impl C05 {
                 2 => Kf::Exact(gen_key(rng)),
                 _ => Kf::Prefix(gen_key(rng)),
             },
-            limit: if rng.chance(1, 2) { Some(rng.below(5) as u64) } else { None },
-            offset: if rng.chance(1, 2) { 0 } else { rng.below(5) as u64 },
+            // the far ends of the 64-bit domain too: "no limit" written as u64::MAX, offsets beyond any table
+            limit: if rng.chance(1, 10) { Some(*rng.pick(&[u64::MAX, u64::MAX - 1, 1 << 63, (1 << 32) + 1])) } else if rng.chance(1, 2) { Some(rng.below(5) as u64) } else { None },
+            offset: if rng.chance(1, 14) { *rng.pick(&[u64::MAX, u64::MAX - 1, 1 << 63, 1 << 32]) } else if rng.chance(1, 2) { 0 } else { rng.below(5) as u64 },
             incl: rng.chance(1, 2),
             desc: rng.chance(1, 2),
         }
@@ -116,7 +117,7 @@ impl Property for C05 {
         "C05"
     }
     fn rule(&self) -> String {
-        "a state of 0-14 remote inserts (2 documents, 3 writing authors + 1 silent, keys from {00,01,61,62,FE,FF}^0..3, 4 timestamps, deletion markers that prune and leave stale index rows) followed by 6-16 queries drawn from the full product kind x author filter x key filter(any/exact/prefix) x limit(none,0..4) x offset(0..4) x include-empty x direction, plus point lookups; non-trivial = some query returned at least one entry and the state has >= 3 entries; distinct = distinct operation lists".into()
+        "a state of 0-14 remote inserts (2 documents, 3 writing authors + 1 silent, keys from {00,01,61,62,FE,FF}^0..3, 4 timestamps, deletion markers that prune and leave stale index rows) followed by 6-16 queries drawn from the full product kind x author filter x key filter(any/exact/prefix) x limit(none,0..4, 2^32+1, 2^63, 2^64-2, 2^64-1) x offset(0..4, 2^32, 2^63, 2^64-2, 2^64-1) x include-empty x direction, plus point lookups; non-trivial = some query returned at least one entry and the state has >= 3 entries; distinct = distinct operation lists".into()
     }
     fn corpus(&self) -> Vec<(String, Vec<Op>)> {
         let p = |a: usize, k: &[u8], c: Option<usize>, ts: u64| Op::Put { n: 0, a, key: k.to_vec(), c, ts };
